@@ -39,6 +39,21 @@ Theorem C04_extract_refines : forall (A L : Type) (leqb : L -> L -> bool) (rdt :
 Proof. exact @extract_refines. Qed.
 Print Assumptions C04_extract_refines.
 
+Require Import Proofs.SelectAllKeys.
+
+(* ... and for EVERY column key, repeated positions included: through the Frame interface a column key that
+   repeats a position raises ErrorInitIndex (column labels are unique) in the implementation model --
+   whatever the block walk made of the repeated positions, see Refuted/C04.v -- and in the specification.
+   Only label reflexivity is needed.  The one guard left is the known finding C04-empty-columns-row-subset. *)
+Theorem C04_extract_refines_all_keys : forall (A L : Type) (leqb : L -> L -> bool) (rdt : list dtype -> dtype),
+  (forall x, leqb x x = true) ->
+  forall (f : mframe A L) (rk ck : ckey),
+  wf_mframe leqb f ->
+  extract_dom (mf_rows f) (Z.of_nat (length (flatten (mf_blocks f)))) rk ck = true ->
+  M_extract leqb rdt f rk ck = S_extract leqb rdt (abs_frame f) rk ck.
+Proof. exact @extract_refines_all_keys. Qed.
+Print Assumptions C04_extract_refines_all_keys.
+
 Require Import SF.Value SF.SelectDt Gen.Gen_util Proofs.SelectLoc Proofs.SelectIncl Proofs.SelectSpec.
 
 (* WHAT THE SPECIFICATION SAYS, cell by cell.  A selection with two non-scalar keys is a Frame whose cell
